@@ -23,12 +23,25 @@ structure MuxWF (n : MuxNode) : Prop where
   sizes : ∀ c ∈ n.children, 0 < c.size
   names : (n.children.map (·.name)).Nodup
 
+/-- every child of `p` that is a multiplexer has its node among `nested`: same name, the
+    child's size is the node's total size, and the node's ABSOLUTE start is the parent's absolute
+    start + the parent's selector width + the child's relative start (as `Signal.GetStartBit`
+    computes it, C07_abs_start) -/
+def LinkOK (nested : List MuxNode) (p : MuxNode) : Prop :=
+  ∀ c ∈ p.children, c.isMux = true →
+    ∃ n ∈ nested, n.name = c.name ∧ c.size = n.groupSize + n.selW ∧ n.start = p.start + p.selW + c.rel
+
+/-- no multiplexor of the file has an extended-multiplexing entry of its own: nothing is nested -/
+def FlatFile (m : DMsg) : Prop := ∀ s ∈ m.sigs, s.isMultiplexor = true → findExt m.exts s.name = none
+
 /-- where a signal sits in the tree -/
 inductive Place where
   | top
   | muxor
   /-- child of the multiplexer `parent` (which has `gc` groups), inserted with `gids` (`[]` = fixed) -/
   | child (parent : String) (gc : Int) (gids : List Int)
+  /-- a multiplexer that is a child of the multiplexer `parent` (nested), inserted with `gids` -/
+  | subMux (parent : String) (gc : Int) (gids : List Int)
   deriving Repr, DecidableEq
 
 /-- one signal of the tree: name, size (selector width for a multiplexer), ABSOLUTE start bit
@@ -49,6 +62,31 @@ def itemEntries : Item → List Entry
 
 /-- the flat view of a tree -/
 def entries (t : ITree) : List Entry := t.top.flatMap itemEntries
+
+/-- selector width of the nested multiplexer of that name -/
+def selWOf (N : List MuxNode) (name : String) : Int :=
+  match N.find? (fun x => x.name == name) with
+  | some n => n.selW
+  | none => 0
+
+/-- the entry of a child, nested multiplexers included: a child that is a multiplexer is listed
+    with its SELECTOR width (what the file states for the multiplexor signal) and the place
+    `subMux`; its absolute start is, as for every child, parent start + selector width + relative
+    start — at every depth, because the parent's `start` is itself absolute (`LinkOK`) -/
+def childEntryN (N : List MuxNode) (n : MuxNode) (c : Child) : Entry :=
+  if c.isMux then ⟨c.name, selWOf N c.name, n.start + n.selW + c.rel, .subMux n.name n.groupCount c.gids⟩
+  else childEntry n c
+
+def nodeEntriesN (N : List MuxNode) (n : MuxNode) : List Entry := n.children.map (childEntryN N n)
+
+def itemEntriesN (N : List MuxNode) : Item → List Entry
+  | .sig l => [⟨l.name, l.size, l.start, .top⟩]
+  | .mux n => ⟨n.name, n.selW, n.start, .muxor⟩ :: nodeEntriesN N n
+
+/-- the flat view of a tree with nested multiplexers: the top-level items with their children,
+    then the children of every nested multiplexer -/
+def entriesN (t : ITree) : List Entry :=
+  t.top.flatMap (itemEntriesN t.nested) ++ t.nested.flatMap (nodeEntriesN t.nested)
 
 /-- where the importer puts a signal of the file (`Acme.Props.C10.importPos`) -/
 def filePos (s : DSig) : Int := if s.bigEndian then convStart s.start else s.start
@@ -77,6 +115,7 @@ def EntryRel (exts : List DExt) (s : DSig) (e : Entry) : Prop :=
   | .top => s.isMultiplexor = false
   | .muxor => s.isMultiplexor = true
   | .child _ gc gids => s.isMultiplexor = false ∧ GroupsAsFile exts gc s gids
+  | .subMux _ gc gids => s.isMultiplexor = true ∧ GroupsAsFile exts gc s gids
 
 /-- the multiplexors of the file have a selector of at least one bit.  Holds for every accepted
     import (`importMuxSignal` refuses a 0-bit multiplexor since /repo 6b610c4; before, it was
